@@ -63,6 +63,42 @@ func c13child(args []string) {
 			}
 		}()
 	}
+	if mode == "handle-reuse" {
+		// calls on a handle after its Close: AcceptStream / ReadFrom fail, a second Close of a stream
+		// handle is a no-op, and the manager stays usable on that address
+		G = 0
+		wg.Add(1)
+		go func() {
+			defer wg.Done()
+			for i := 0; i < iters; i++ {
+				addr := fmt.Sprintf("127.0.0.1:%d", base+1+i%50)
+				if ln, err := mgr.ListenStream(addr); err == nil {
+					var keep service.StreamListener
+					if i%3 == 0 { // not the last handle of the address
+						keep, _ = mgr.ListenStream(addr)
+					}
+					ln.Close()
+					ln.AcceptStream()
+					atomic.AddInt64(&progress, 1)
+					ln.Close()
+					ln.AcceptStream()
+					if keep != nil {
+						keep.Close()
+					}
+				}
+				atomic.AddInt64(&progress, 1)
+				if pc, err := mgr.ListenPacket(addr); err == nil {
+					pc.Close()
+					pc.ReadFrom(make([]byte, 16))
+				}
+				atomic.AddInt64(&progress, 1)
+				if ln, err := mgr.ListenStream(addr); err == nil {
+					ln.Close()
+				}
+				atomic.AddInt64(&progress, 1)
+			}
+		}()
+	}
 	if mode == "stream-bindfail" || mode == "packet-bindfail" {
 		// error paths: a Listen that fails at bind (the address is held by someone else), then
 		// the same address again once it is free, and an unrelated address
@@ -198,10 +234,10 @@ func c13(ctx *Ctx) {
 	runs := []struct {
 		mode     string
 		g, iters int
-	}{{"stream-same", 8, 3000}, {"packet-same", 8, 3000}, {"stream-distinct", 8, 300}, {"mixed-same", 8, 2000}, {"stream-bindfail", 1, 200}, {"packet-bindfail", 1, 200}, {"stream-unaccepted", 1, 150}}
+	}{{"stream-same", 8, 3000}, {"packet-same", 8, 3000}, {"stream-distinct", 8, 300}, {"mixed-same", 8, 2000}, {"stream-bindfail", 1, 200}, {"packet-bindfail", 1, 200}, {"stream-unaccepted", 1, 150}, {"handle-reuse", 1, 200}}
 	if ctx.Thorough() {
 		for i := 0; i < 6; i++ {
-			runs = append(runs, runs[i%7])
+			runs = append(runs, runs[i%8])
 		}
 	}
 	for _, rn := range runs {
